@@ -25,6 +25,8 @@ def run(an: Analysis, rep):
     rep.rule("R05.1", "normalize is the identity on public fields", 20)
     rep.rule("R05.2", "the encoder consumes every public field", 20)
     rep.rule("R05.3", "docstring slot guards over the finite guard domain", 2)
+    from .common import purity
+    rep.run(purity, an, rep, "R05.P", ["normalize", "to_code"])
     fn, p, arms, fall_identity = parse_normalize(an)
     dcs = data_classes(an)
     for ci in dcs:
@@ -75,7 +77,7 @@ def run(an: Analysis, rep):
                         f"public field {f.name} is never read in the to_code closure (outside error messages): the meaning normalize keeps is not encoded",
                         config=vname(V))
     rep.stats.update(an.stats(interps))
-    r053(an, rep)
+    rep.run(r053, an, rep)
 
 
 class _O(dict):
